@@ -88,11 +88,11 @@ add("C12",
     ["Builder::{with_resolver,local_private_key,remote_public_key,psk,build,build_initiator,build_responder}", "HandshakeState::new", "HandshakeTokens::try_from", "apply_psk_modifier", "HandshakePattern::{needs_local_static_key,need_known_remote_pubkey}"],
     ["stub resolver"], exhaustive=False)
 add("C13",
-    "Decided: (a) the public per-field FromStr impls (BaseChoice, DHChoice, CipherChoice, HashChoice, HandshakePattern, HandshakeModifier) on SYMBOLIC ASCII strings of symbolic length; (b) HandshakeModifierList::from_str and HandshakeChoice::from_str on templates with CONCRETE '+' positions and SYMBOLIC token bytes (1-4 modifiers, empty first/middle/last segment, fallback): Ok iff a byte-level reference recogniser of the name grammar accepts (non-duplicate at every pair of positions, '+'-separated, known tokens), components and order equal, rejection is Error::Pattern; (c) NoiseParams::from_str on whole-name templates whose five-way split must reject (too many / too few / empty field). NOT decided (attempted, stated): whole names with a symbolic accept/reject decision inside a field (verbatim name preservation and name-level component equality are therefore asserted only on templates that finish), symbolic separator positions, a symbolic pattern/modifier boundary together with a modifier list (thorough attempt).",
-    "reference recogniser written from the specification's grammar; strings built with from_utf8_unchecked from bytes assumed < 0x80; in list / handshake-field / name templates core::slice::memchr::memchr is replaced by a separator-mask function that reads the separator positions from the const template - contract-equivalent under the harness's assumption that hole bytes are not separators (asserts: needle is the template's separator, haystack is a suffix); the real memchr runs in every native replay.",
-    ["separator-mask function for core::slice::memchr::memchr (template harnesses)", "naive-loop memchr (fully symbolic 5-byte list / field harnesses, thorough)"], {"quick": "fields up to 7-12 bytes, pattern names up to 4 bytes, modifier token up to 8 bytes, 6 modifier templates, modifier lists of 2-3 tokens + empty-segment shapes + fallback, handshake fields XX/X1X1 with 2-3 modifiers", "thorough": "+ pattern names up to 5 bytes, 4-token lists, free 4-byte tokens, symbolic second pattern character, too-few / empty-field whole names"},
-    ["non-ASCII input", "whole names with symbolic field contents (String/Vec drop glue under symbolic conditions does not finish in 10 min)", "symbolic separator positions (each template fixes them)", "lists of more than 4 modifiers"],
-    ["<BaseChoice|DHChoice|CipherChoice|HashChoice|HandshakePattern|HandshakeModifier|HandshakeModifierList|HandshakeChoice as FromStr>::from_str", "NoiseParams::from_str (rejection templates)"], ["ASCII strings within the stated lengths", "hole bytes are not separators (separator structures are enumerated by the templates)"])
+    "Decided: (a) the public per-field FromStr impls (BaseChoice, DHChoice, CipherChoice, HashChoice, HandshakePattern, HandshakeModifier) on SYMBOLIC ASCII strings of symbolic length; (b) HandshakeModifierList::from_str, HandshakeChoice::from_str and NoiseParams::from_str on templates with CONCRETE separator positions ('+', '_') and SYMBOLIC bytes elsewhere (1-4 modifiers, empty first/middle/last segment, fallback; whole names with symbolic psk digits, symbolic bytes in the base / dh / cipher / hash fields, too many / too few / empty fields): Ok iff a byte-level reference recogniser of the name grammar accepts (five fields, supported pattern, non-duplicate '+'-separated known modifiers, supported primitive names), pattern / modifiers (values and order) / dh / cipher / hash equal to the named ones, `name` equal to the input byte for byte, rejection is Error::Pattern. NOT decided: symbolic separator positions (the templates enumerate the structures), a symbolic byte inside the pattern name of a longer string (out of memory; the pattern parser alone is decided on fully symbolic strings).",
+    "reference recogniser written from the specification's grammar; strings built with from_utf8_unchecked from bytes assumed < 0x80; in template harnesses core::slice::memchr::memchr is replaced by a separator-mask function that reads the separator positions from the const template - contract-equivalent under the harness's assumption that hole bytes are not separators (it asserts: needle is a separator of the template, haystack is a suffix of the template / of the handshake field); the real memchr runs in every native replay. The reference verdict for whole names cuts the fields at the template's separator positions.",
+    ["separator-mask function for core::slice::memchr::memchr (template harnesses)", "naive-loop memchr (fully symbolic 5-byte list / field harnesses, thorough)"], {"quick": "fields up to 7-12 bytes, pattern names up to 4 bytes, modifier token up to 8 bytes, 6 modifier templates, modifier lists of 2-3 tokens + free 4-byte tokens + empty-segment shapes + fallback, handshake fields XX/X1X1 with 2-3 modifiers, 8 whole-name templates up to 41 bytes", "thorough": "+ pattern names up to 5 bytes, 4-token lists, empty last segment, fully symbolic 5-byte lists/fields"},
+    ["non-ASCII input", "symbolic separator positions (each template fixes them)", "a symbolic byte inside the pattern name of a list / whole-name template", "lists of more than 4 modifiers, names longer than 41 bytes"],
+    ["<BaseChoice|DHChoice|CipherChoice|HashChoice|HandshakePattern|HandshakeModifier|HandshakeModifierList|HandshakeChoice|NoiseParams as FromStr>::from_str"], ["ASCII strings within the stated lengths", "hole bytes are not separators (separator structures are enumerated by the templates)"])
 add("C14",
     "One real handshake write/read at message k, and one transport write/read of either kind, with payload, message and buffer lengths symbolic in 0..=66000: Ok(n) implies n == the reference model's predicted length, n <= 65535, n <= buffer; a message that does not fit the buffer or the limit fails with Input; reads longer than 65535 fail with Input, shorter than the fixed fields fail, Ok(n) implies n == length - overhead; well-sized authentic input is accepted; the cipher never receives a buffer smaller than its contract requires.",
     ORACLE + "; lengths predicted from the reference model's token table; " + HOOK, [ORACLE],
